@@ -33,23 +33,25 @@ def rule_partition(ctx, repo):
     # order types of x relative to -tol < 0 < tol  (tol > 0): 7 regions
     reps = [-2.0, -1.0, -0.5, 0.0, 0.5, 1.0, 2.0]
     bad = []
-    for x in reps:
-        env = {"self.config.tol": 1.0, "self.mu.real": x}
+    # eigenvalues are complex: the classification must depend on the real part only (imaginary part 0 or not)
+    for x, im in [(x_, i_) for x_ in reps for i_ in (0.0, 3.0)]:
+        env = {"self.config.tol": 1.0, "self.mu.real": x, "self.mu.imag": im, "self.mu": complex(x, im)}
         for a in alias:
             env[a] = x
         try:
-            hits = [k for k, c in preds.items() if Interp(env).ev(c)]
+            hits = [k for k, c in preds.items() if Interp(env, {"np.real": lambda z: z.real, "np.imag": lambda z: z.imag}).ev(c)]
         except Unsupported as e:
             ctx.undecided("C08.partition", "EIG._store_stats", "front-end: %s" % e, f.W())
             return
+        tag = "eigenvalue %+g*tol%+gj" % (x, im)
         if len(hits) != 1:
-            bad.append("real part %+g*tol is counted by %s" % (x, [h.split(".")[-1] for h in hits] or "none"))
+            bad.append("%s is counted by %s" % (tag, [h.split(".")[-1] for h in hits] or "none"))
         else:
             want = "self.n_negative" if x < -1 else ("self.n_positive" if x > 1 else "self.n_zeros")
             if hits[0] != want:
-                bad.append("real part %+g*tol counted as %s" % (x, hits[0].split(".")[-1]))
+                bad.append("%s counted as %s" % (tag, hits[0].split(".")[-1]))
     ctx.check(not bad, "C08.partition", "EIG._store_stats",
-              "7 order types of Re(mu) vs -tol<0<tol: exactly one of positive/zero/negative each",
+              "7 order types of Re(mu) vs -tol<0<tol x {real, complex}: exactly one of positive/zero/negative each",
               "; ".join(bad[:4]), f.W())
     ctx.extra["exhaustive"] = True
 
